@@ -69,8 +69,11 @@ def run_case(scheme, cid, cfg, cls, db, acc, rng, use_module_default=False):
     EDB = L.SSEEncryptedDatabase
     cp = gen.caps(scheme, cfg)
     present = list(db_before)
-    if len(present) > 12:
+    long_history = len(present) > 30 and rng.random() < 0.7
+    if len(present) > 12 and not long_history:
         present = rng.sample(present, 12)
+    elif len(present) > 120:
+        present = rng.sample(present, 120)
     absent = [w for w, _ in gen.absent_keywords(rng, db_before, cp["kw_limit"], k_random=2, k_close=3)]
     words = present + absent
     # single-search baseline on a private deserialized copy
@@ -88,6 +91,14 @@ def run_case(scheme, cid, cfg, cls, db, acc, rng, use_module_default=False):
             return False
     hist_len = rng.randint(10, 60)
     history = [rng.choice(words) for _ in range(hist_len)]
+    if long_history:
+        # many DISTINCT keywords on one scheme object and one index: a forward pass, the same pass backwards, a
+        # shuffled pass and random repeats (whatever a search remembers about earlier searches gets exercised)
+        acc.count("long_histories")
+        fwd = list(words)
+        sh = list(words)
+        rng.shuffle(sh)
+        history = fwd + fwd[::-1] + sh + history
     # make sure repetition exists
     history += [history[0], history[len(history) // 2]]
     acc.count("histories")
@@ -131,7 +142,25 @@ def run_shard(spec, acc, ctx):
     scheme = spec["scheme"]
     short = gen.SHORT[scheme]
     first = True
+    rng = ctx.rng
+    n_case = 0
     for cid, cfg, cls, db, info in sse.iter_cases(spec, ctx, scales=[6, 16, 40]):
+        n_case += 1
+        if n_case % (6 if scheme != "CGKO06.SSE2" else 40) == 0:
+            # a database with many keywords (as many as the capacities allow, up to 100) and short lists
+            cp = gen.caps(scheme, cfg)
+            nk = min(rng.randint(40, 100) if scheme != "CGKO06.SSE2" else 36, cp["max_keywords"],
+                     cp["max_total"] // 2 if cp["max_total"] < 200 else 100)
+            if nk > 32:
+                try:
+                    lens = [min(rng.randint(1, 3), cp["max_list"]) for _ in range(nk)]
+                    while sum(lens) > cp["max_total"]:
+                        lens[lens.index(max(lens))] -= 1
+                    if min(lens) >= 1:
+                        db, info = gen.db_from_lens(ctx.rng, scheme, cfg, lens, "many-keywords")
+                        cls = "many-keywords"
+                except ValueError:
+                    pass
         use_default = (cid == "default" and scheme != "CGKO06.SSE2")
         if use_default:
             acc.count("module_default_passed")
@@ -160,6 +189,8 @@ def finish(m, tier, seed):
             inc.append(f"{short}: only {per[short]['histories']} histories")
     if c.get("setup_failed", 0) + c.get("baseline_failed", 0) > 0.2 * max(1, c.get("cases", 0)):
         inc.append("too many setups/baselines failed")
+    if c.get("long_histories", 0) < 20:
+        inc.append(f"only {c.get('long_histories', 0)} long histories")
     if c.get("repeated_searches", 0) < 500:
         inc.append("too few repeated searches")
     cov = {
@@ -175,6 +206,7 @@ def finish(m, tier, seed):
         "histories": c.get("histories", 0),
         "history_searches": c.get("history_searches", 0),
         "repeated_searches": c.get("repeated_searches", 0),
+        "long_histories_over_more_than_30_distinct_keywords": c.get("long_histories", 0),
         "edb_byte_comparisons": c.get("intact.edb_checked", 0),
         "module_default_config_passed_by_reference": c.get("module_default_passed", 0),
         "setup_failed": c.get("setup_failed", 0),
